@@ -12,7 +12,7 @@
    (mutation suites), not proved: see props/C30.json planned_not_proved. *)
 From Coq Require Import List NArith String.
 Import ListNotations.
-From Verif Require Import Common.Base Model.Walkers Proofs.Walkers Proofs.WalkersBytes.
+From Verif Require Import Common.Base Model.Walkers Proofs.Walkers Proofs.WalkersBytes Proofs.WalkersFilter.
 Open Scope string_scope.
 
 (* sdp.go trackDetailsFromSDP: a=ssrc / a=ssrc-group (FID, FEC-FR) / a=msid
@@ -105,6 +105,28 @@ Proof.
   split; [reflexivity |]. split; [reflexivity |]. exact rtx_unwrap_zero_read_panics.
 Qed.
 Print Assumptions c30_rtx_unwrap_refuted.
+
+(* the correspondence check leaves attributes with other keys out of the Coq
+   input; this is sound: the models read only keys of relevant_keys *)
+Theorem c30_models_ignore_other_attributes :
+  forall (d : desc),
+    track_details (filter_desc d) = track_details d /\
+    extract_bundle_id (filter_desc d) = extract_bundle_id d /\
+    extract_fingerprint (filter_desc d) = extract_fingerprint d /\
+    (forall classify, extract_ice_details classify (filter_desc d) = extract_ice_details classify d) /\
+    possibly_planb (filter_desc d) = possibly_planb d /\
+    (forall handled add_ok sem,
+       start_rtp_receivers handled add_ok sem (filter_desc d) = start_rtp_receivers handled add_ok sem d).
+Proof. exact models_ignore_other_attributes. Qed.
+Print Assumptions c30_models_ignore_other_attributes.
+
+Theorem c30_media_models_ignore_other_attributes :
+  forall (m : media),
+    get_rids (filter_media m) = get_rids m /\
+    peer_direction (m_attrs (filter_media m)) = peer_direction (m_attrs m) /\
+    (forall add_ok, handle_undeclared_ssrc add_ok (filter_media m) = handle_undeclared_ssrc add_ok m).
+Proof. exact media_models_ignore_other_attributes. Qed.
+Print Assumptions c30_media_models_ignore_other_attributes.
 
 (* the models are not vacuous: a Chrome-style section with rtx and fec groups
    yields one track with both repair SSRCs, a simulcast section a rid track
